@@ -113,6 +113,20 @@ func runC14(c *fw.Ctx) {
 		if _, ok := CheckMaterial(c, child, "derived "+path, &wantY, 4); !ok {
 			return
 		}
+		// deriving must leave the parent usable: it is still a valid sharing of ITS key
+		if _, ok := CheckMaterial(c, m, "parent after deriving "+path, &Y, 2); !ok {
+			return
+		}
+		if !bytes.Equal(m.ChainKey(ids[0]), ck) {
+			c.Violate(p.String()+"/derive-changed-parent-chain-key", "path %s: the parent's chain key changed when a child was derived", path)
+			return
+		}
+		if c.S.Draw(3, "continue-from") == 2 {
+			// stay on the parent: the next derivation is a sibling, and the final signature uses the parent
+			path += "(sibling-next)"
+			c.Probe("sibling_derivations", 1)
+			continue
+		}
 		m, Y, ck = child, wantY, wantCK
 	}
 	if !okc || len(c.Res.Violations) > 0 {
